@@ -449,3 +449,91 @@ theorem lexRawFuel_rest (T : Tables) (hS : skipId T ≠ invalidId T) (hC : comme
         obtain ⟨pre, t, he, hid⟩ := ih _ _ hlen hne
         exact ⟨(stepLoc T l (nextTokenT T (c :: r)).1 (nextTokenT T (c :: r)).2).1 :: pre, t,
           by simp only [he, List.cons_append], hid⟩
+
+/-! ## line numbers -/
+
+def countNL : Bytes → Nat
+  | [] => 0
+  | b :: r => (if b == 0x0A then 1 else 0) + countNL r
+
+/-- by how much a token advances `loc.Line` -/
+def lineAdvance (T : Tables) (t : Tok) : Nat :=
+  if t.id == skipId T then countNL t.text else if t.id == commentId T then 1 else 0
+
+theorem skipLoc_line : ∀ (b : Bytes) (line col : Nat), (skipLoc b line col).1 = line + countNL b
+  | [], line, col => by simp [skipLoc, countNL]
+  | b :: r, line, col => by
+    simp only [skipLoc, countNL]
+    split
+    · rw [skipLoc_line r]; omega
+    · rw [skipLoc_line r]; omega
+
+theorem stepLoc_line2 (T : Tables) (l : Loc) (id : Nat) (text : Bytes) :
+    (stepLoc T l id text).2.line = l.line + lineAdvance T (stepLoc T l id text).1 := by
+  unfold lineAdvance
+  rw [stepLoc_id, stepLoc_text]
+  unfold stepLoc
+  simp only
+  split
+  · exact skipLoc_line _ _ _
+  · split <;> rfl
+
+/-- **line numbers**: the line of every token is the start line plus the
+number of `\n` bytes in the SKIP tokens before it plus the number of COMMENT
+tokens before it. -/
+theorem lexRawFuel_line (T : Tables) : ∀ (f : Nat) (src : Bytes) (l : Loc) (pre : List Tok) (t : Tok) (post : List Tok),
+    (lexRawFuel T f src l).1 = pre ++ t :: post → t.line = l.line + (pre.map (lineAdvance T)).sum := by
+  intro f
+  induction f with
+  | zero => intro src l pre t post h; simp [lexRawFuel_zero] at h
+  | succ f ih =>
+    intro src l pre t post h
+    cases src with
+    | nil => simp [lexRawFuel_nil] at h
+    | cons c r =>
+      rw [lexRawFuel_cons] at h
+      split at h
+      · cases pre with
+        | nil =>
+          simp only [List.nil_append, List.cons.injEq] at h
+          rw [← h.1, stepLoc_line1]; simp
+        | cons p pre' =>
+          simp only [List.cons_append, List.cons.injEq] at h
+          have := h.2
+          simp at this
+      · cases pre with
+        | nil =>
+          simp only [List.nil_append, List.cons.injEq] at h
+          rw [← h.1, stepLoc_line1]; simp
+        | cons p pre' =>
+          simp only [List.cons_append, List.cons.injEq] at h
+          have := ih _ _ _ _ _ h.2
+          rw [this, stepLoc_line2, ← h.1]
+          simp only [List.map_cons, List.sum_cons]
+          omega
+
+/-! ## the tokenizer as regenerated (`Gen.tokSwitch`, `Gen.tokIds`, `Gen.tokIdRegex`) -/
+
+theorem gen_skip_ne_invalid : skipId genTables ≠ invalidId genTables := by decide
+theorem gen_comment_ne_invalid : commentId genTables ≠ invalidId genTables := by decide
+
+/-- the texts of ALL tokens followed by the unconsumed rest are the input, and
+bytes are left unconsumed only after a final INVALID token -/
+theorem lexAllRaw_reconstructs (src : Bytes) :
+    ((lexAllRaw src).1.map Tok.text).flatten ++ (lexAllRaw src).2 = src ∧
+    ((lexAllRaw src).2 ≠ [] → ∃ pre t, (lexAllRaw src).1 = pre ++ [t] ∧ t.id = invalidId genTables) :=
+  ⟨lexRawFuel_reconstructs genTables _ src startLoc,
+   lexRawFuel_rest genTables gen_skip_ne_invalid gen_comment_ne_invalid _ src startLoc (Nat.lt_succ_self _)⟩
+
+/-- more fuel than `length + 1` changes nothing: the loop of `Lex` terminates on
+its own -/
+theorem lexAllRaw_fuel (src : Bytes) (f : Nat) (h : src.length + 1 ≤ f) :
+    lexRawFuel genTables f src startLoc = lexAllRaw src :=
+  lexRawFuel_fuel genTables gen_skip_ne_invalid gen_comment_ne_invalid f _ src startLoc (by omega)
+    (Nat.lt_succ_self _)
+
+theorem lexAllRaw_line (src : Bytes) (pre : List Tok) (t : Tok) (post : List Tok)
+    (h : (lexAllRaw src).1 = pre ++ t :: post) : t.line = 1 + (pre.map (lineAdvance genTables)).sum :=
+  lexRawFuel_line genTables _ src startLoc pre t post h
+
+end Martian.Tokenizer
